@@ -62,7 +62,7 @@ static int made;
 static MPT_STRUCT(refcount) bare;
 static MPT_STRUCT(array) inner;      /* content shared by the metabuf objects */
 static long sends;
-static int peers[MAXO];              /* far ends of the stream socket pairs */
+static int peers[2 * MAXO + 2];      /* both ends of the stream socket pairs (closed again at reset) */
 static int npeers;
 
 /* ---------- counter values: k, or MAX-k reported relative to the model's Max ---------- */
@@ -193,13 +193,14 @@ static void *stream_input(void)
 	int sv[2];
 	MPT_STRUCT(socket) sock;
 	MPT_INTERFACE(input) *in;
-	if (npeers >= MAXO || socketpair(AF_UNIX, SOCK_STREAM, 0, sv) < 0) return 0;
+	if (npeers + 2 > (int) (sizeof(peers) / sizeof(*peers)) || socketpair(AF_UNIX, SOCK_STREAM, 0, sv) < 0) return 0;
 	sock._id = sv[0];
 	if (!(in = mpt_stream_input(&sock, MPT_STREAMFLAG(RdWr), MPT_ENUM(EncodingCobs), 2))) {
 		close(sv[0]); close(sv[1]);
 		return 0;
 	}
 	peers[npeers++] = sv[1];
+	peers[npeers++] = sv[0];   /* owned by the stream; closed at reset in case the object outlives the behaviour */
 	return in;
 }
 static void *obj_create(void)
